@@ -43,6 +43,7 @@ def queries(tier, seed=0):
     qs.append(dict(kind='skel', skel='B', numtype='float', sym=['nums'], picks=[], privescs=0))
     for sk in ('A', 'B'):
         qs.append(dict(kind='skel', skel=sk, numtype='float', sym=['nums', 'cfg', 'hostvalue'], host_order='reversed'))
+        qs.append(dict(kind='skel', skel=sk, numtype='float', sym=['nums', 'limit'], first='A'))
     if tier != 'quick':
         qs.append(dict(kind='skel', skel='B', numtype='float', sym=['nums'], picks=['e_ssh', 'e_ftp']))
     from nasim.scenarios.benchmark import AVAIL_STATIC_BENCHMARKS
@@ -54,17 +55,49 @@ def queries(tier, seed=0):
 def run(src, q):
     r = dyn.Rec()
     r.q = q
+    if q.get('first'):
+        # an earlier load in the same process (no state reset in between) must not matter
+        d0, _e0 = loaderh.skeleton(src, dict(kind='skel', skel=q['first'], numtype='float', sym=[], picks=[]))
+        loaderh.load(src, d0)
     if q['kind'] == 'skel':
         doc, exp = loaderh.skeleton(src, q)
     else:
         doc, exp = loaderh.shipped(src, q)
     r.exp = exp
     r.sc = loaderh.load(src, doc)
+    # "the environment built from it enforces every rule written in the file": the actions the
+    # environment will offer carry the file's definitions
+    import nasim.envs.action as m_act
+    from .. import stubs
+    with stubs.sut():
+        r.actions = m_act.load_action_list(r.sc)
     return r
 
 
 def obligations(r):
-    return loaderh.scenario_obligations(r.sc, r.exp)
+    obl = loaderh.scenario_obligations(r.sc, r.exp)
+    exp = r.exp
+    acts = r.actions
+    for nm, d in exp['exploits'].items():
+        mine = [a for a in acts if a.is_exploit() and a.name == nm]
+        ok = [z3.BoolVal(len(mine) == len(exp['addrs']))]
+        for a in mine:
+            ok += [z3.BoolVal(a.service == d['service'] and a.os == d['os']), loaderh._eqv(a.prob, d['prob']),
+                   loaderh._eqv(a.cost, d['cost']), loaderh._eqv(a.access, d['access'])]
+        obl.append(('environment_actions_of_exploit_%s' % nm, z3.And(ok)))
+    for nm, d in exp['privescs'].items():
+        mine = [a for a in acts if a.is_privilege_escalation() and a.name == nm]
+        ok = [z3.BoolVal(len(mine) == len(exp['addrs']))]
+        for a in mine:
+            ok += [z3.BoolVal(a.process == d['process'] and a.os == d['os']), loaderh._eqv(a.prob, d['prob']),
+                   loaderh._eqv(a.cost, d['cost']), loaderh._eqv(a.access, d['access'])]
+        obl.append(('environment_actions_of_escalation_%s' % nm, z3.And(ok)))
+    scans = dict(service='is_service_scan', os='is_os_scan', subnet='is_subnet_scan', process='is_process_scan')
+    for short, pred in scans.items():
+        mine = [a for a in acts if getattr(a, pred)()]
+        obl.append(('environment_%s_scans' % short, z3.And([z3.BoolVal(len(mine) == len(exp['addrs']))] +
+                                                           [loaderh._eqv(a.cost, exp['scan'][short]) for a in mine])))
+    return obl
 
 
 def witnesses(r):
